@@ -4,11 +4,18 @@
    a stream of such packets is framed back into exactly those packets.
    Engine level: write() is handed the unwritten rest of one entry, from its recorded offset; a fresh entry
    is begun only when no entry is in progress.
-   The lift to whole executions (partial writes x cancellation x faults) is the correspondence check plus the
-   independent stream decoder on every transport (lib/monitors.py mon_c01). *)
+   Whole executions: C01_wire_is_whole_packets — for every case (program, script, broker), in the final world the
+   bytes accepted by the current transport are whole packets followed by at most the beginning of one packet, and
+   on a live handle that beginning is exactly the written prefix of the one queued entry in progress — unless the
+   ghost flag w_poison is set, which happens exactly in the three recorded ways (C01_known_findings_witnessed).
+   `w_wire` and `w_poison` are ghost fields of the machine's world: w_wire collects what io_write accepts, w_poison
+   is set by a direct write (QoS 0 PUBLISH, DISCONNECT) that stops half way with the handle still live and by
+   disconnect() called while a queued packet is half written.  The tie of this model to the code, byte for byte, is
+   the correspondence check; the independent stream decoder of lib/monitors.py mon_c01 watches the implementation. *)
 From Coq Require Import List NArith.
 From Minimq Require Import Bytes Varint Utf8 Props Ser De Reader Spec Arena Core.
-From Minimq Require Import Status Frames.
+From Minimq Require Import Show Machine Parse Run.
+From Minimq Require Import Status Frames WireInv Wire.
 Import ListNotations.
 Open Scope N_scope.
 
@@ -74,6 +81,43 @@ Theorem C01_fresh_only_when_nothing_in_progress : forall o st,
   (forall e, In e (ob_ret o) -> is_in_progress (re_st e) = false).
 Proof. exact fresh_only_when_nothing_in_progress. Qed.
 
+(* ---------- whole executions ---------- *)
+Theorem C01_wire_is_whole_packets : forall c,
+  let w := run_case c in
+  w_poison w = false ->
+  exists fs t, Forall is_frame fs /\ w_wire w = concat fs ++ t /\ prefix_of_frame t /\
+               (w_live w = true -> t = tail_of (s_ob (w_sess w))).
+Proof. exact wire_is_whole_packets. Qed.
+
+(* with nothing half written the standard's framing rule recovers exactly those packets from the stream *)
+Theorem C01_wire_frames_split : forall c,
+  let w := run_case c in
+  w_poison w = false -> w_live w = true -> npart (s_ob (w_sess w)) = 0%nat ->
+  exists fs, Forall is_frame fs /\ split_frames (S (length fs)) (w_wire w) = Some fs.
+Proof. exact wire_frames_split. Qed.
+
+(* the invariants behind it, each closed under every session step *)
+Theorem C01_session_invariants_step : forall s l s', Lts.sstep s l s' -> WInv s -> WInv s'.
+Proof. exact WInv_step. Qed.
+
+(* an engine step: the queues own exactly the prefix written so far, before and after *)
+Theorem C01_engine_tail : forall s st p bs w len n,
+  WInv s -> next_step (s_ob s) = Some st -> prepare_step s st = PWrite p bs w len ->
+  tail_of (s_ob s) = takeN w bs /\ lenN bs = len /\ is_frame bs /\
+  tail_of (s_ob (fst (set_written s p (w + n) len))) = st_prefix (set_written_state (w + n) len) bs /\
+  (len <= w + n -> npart (s_ob (fst (set_written s p (w + n) len))) = 0%nat).
+Proof. exact engine_tail. Qed.
+
+(* the flag is set by the recorded findings and only concerns them: K01a leaves it clear (whole packet, illegal
+   first byte 0x8a), K01b and K01c set it *)
+Theorem C01_known_findings_witnessed :
+  (exists w, world_of k01a_tokens = Some w /\ w_poison w = false /\
+     ends_with (w_wire w) [138; 7; 0; 1; 0; 0; 1; 97; 0] /\ spec_client_first_byte 138 = false) /\
+  (exists w, world_of k01b_tokens = Some w /\ w_poison w = true /\ ends_with (w_wire w) [50; 11; 0; 224; 0]) /\
+  (exists w, world_of k01c_tokens = Some w /\ w_poison w = true /\ w_live w = true /\
+     ends_with (w_wire w) [224; 48; 5; 0; 1; 97; 0; 120]).
+Proof. exact known_findings_witnessed. Qed.
+
 Print Assumptions C01_connect_is_one_packet.
 Print Assumptions C01_publish_is_one_packet.
 Print Assumptions C01_subscribe_is_one_packet.
@@ -87,3 +131,8 @@ Print Assumptions C01_engine_resumes_at_offset.
 Print Assumptions C01_engine_control_bytes.
 Print Assumptions C01_engine_release_bytes.
 Print Assumptions C01_fresh_only_when_nothing_in_progress.
+Print Assumptions C01_wire_is_whole_packets.
+Print Assumptions C01_wire_frames_split.
+Print Assumptions C01_session_invariants_step.
+Print Assumptions C01_engine_tail.
+Print Assumptions C01_known_findings_witnessed.
